@@ -1584,12 +1584,14 @@ class AbstractUnit:
             inlets = [i for i in ins if i]
             ins[:] = ()
         else:
-            for i in inlets: ins[ins.index(i) if isinstance(i, AbstractStream) else i] = None
+            inlets = [i if isinstance(i, AbstractStream) else ins[i] for i in inlets] # Indices are accepted too
+            for i in inlets: ins[ins.index(i)] = None
         if outlets is None: 
             outlets = [i for i in outs if i]
             outs[:] = ()
         else:
-           for o in outlets: outs[outs.index(o) if isinstance(o, AbstractStream) else o] = None
+           outlets = [o if isinstance(o, AbstractStream) else outs[o] for o in outlets]
+           for o in outlets: outs[outs.index(o)] = None
         if join_ends:
             if len(inlets) != len(outlets):
                 raise ValueError("number of inlets must match number of outlets to join ends")
